@@ -22,9 +22,12 @@ func NewFuture[T vivid.Message](liaison vivid.ActorLiaison, timeout time.Duratio
 	}
 
 	if timeout > 0 {
+		// 极短的超时可能在 AfterFunc 返回前即触发，timer 字段的写入与 close 中的读取需由锁保护
+		future.mu.Lock()
 		future.timer = time.AfterFunc(timeout, func() {
 			future.Close(vivid.ErrorFutureTimeout)
 		})
+		future.mu.Unlock()
 	}
 
 	return future
@@ -82,8 +85,9 @@ func (f *Future[T]) PipeTo(forwarders vivid.ActorRefs) error {
 	}
 	f.mu.Lock()
 	if f.closed.Load() {
+		message, err := f.message, f.err
 		f.mu.Unlock()
-		f.tellForwarders(forwarders, f.message, f.err)
+		f.tellForwarders(forwarders, message, err)
 		return nil
 	}
 	f.forwarders = append(f.forwarders, forwarders...).Unique()
@@ -106,7 +110,11 @@ func (f *Future[T]) tellForwarders(refs vivid.ActorRefs, msg T, err error) {
 }
 
 func (f *Future[T]) close(v any) {
-	if !f.closed.CompareAndSwap(false, true) {
+	// 结果的写入、closed 的置位与转发者的取出在同一临界区内完成：
+	// 并发的 PipeTo 要么在完成前登记（由此处转发），要么在完成后读取到完整的结果（由其自行转发）
+	f.mu.Lock()
+	if f.closed.Load() {
+		f.mu.Unlock()
 		return
 	}
 	switch val := v.(type) {
@@ -118,19 +126,21 @@ func (f *Future[T]) close(v any) {
 	default:
 		f.err = fmt.Errorf("%w, expected %T, got %T", vivid.ErrorFutureMessageTypeMismatch, f.message, val)
 	}
+	f.closed.Store(true)
+	timer := f.timer
+	toSend := f.forwarders
+	f.forwarders = nil
+	message, err := f.message, f.err
+	f.mu.Unlock()
+
 	close(f.done)
-	if f.timer != nil {
-		f.timer.Stop()
+	if timer != nil {
+		timer.Stop()
 	}
 	if f.closer != nil {
 		f.closer()
 	}
-
-	f.mu.Lock()
-	toSend := f.forwarders
-	f.forwarders = nil
-	f.mu.Unlock()
-	f.tellForwarders(toSend, f.message, f.err)
+	f.tellForwarders(toSend, message, err)
 }
 
 func (f *Future[T]) Result() (T, error) {
